@@ -76,7 +76,9 @@ def dollar_word(a):
 # pieces of application arguments and of the values of the variables C16A, C16B, C16C (C16A may refer to C16B and C16C,
 # C16B to C16C: no cycles unless one is asked for)
 DOLLAR_PIECES = ['${C16A}', '${C16B}', '${C16C}', '${C16U:d}', '${C16U}', '$[pika.os_threads]', '$[pika.nosuch:zz]',
-                 '$[pika.scheduler]', '$', '{', '}', '[', ']', ':', 'a', 'b', '${', '$[', 'C16A', 'pika.os_threads', 'x y']
+                 '$[pika.scheduler]', '$', '{', '}', '[', ']', ':', 'a', 'b', '${', '$[', 'C16A', 'pika.os_threads', 'x y',
+                 # placeholders inside the NAME / key of a placeholder (expand_brace / expand_bracket expand what follows first)
+                 '${${C16N}}', '${C16${C16M}}', '$[pika.${C16K}]', '${C16U:${C16C}}', '$[${C16U:pika.cores}]']
 SELF_REF = re.compile(r'^.+\$\{')      # a placeholder start behind the first character
 
 
@@ -118,6 +120,8 @@ def dollar_env_cases(rng, mach, first_id, quick):
     add({'X': '', 'Y': '${Z}', 'Z': '${W}', 'W': 'w'}, ['${X}${Y}', '--pika:threads=2'], {'threads': {'cmdopt': '2'}})
     add({'X': 'a', 'Y': '${Z}', 'Z': '${W}', 'W': 'w'}, ['${X}${Y}', '--pika:threads=2'], {'threads': {'cmdopt': '2'}})
     add({'X': '', 'HOME': '/h'}, ['$${X}{HOME}', '--pika:threads=2'], {'threads': {'cmdopt': '2'}})
+    add({'C16N': 'C16V', 'C16V': 'val'}, ['${${C16N}}', '$[pika.${C16K}]', '--pika:threads=2'], {'threads': {'cmdopt': '2'}})
+    add({'C16V': 'val'}, ['${C16U:${C16V}}', 'p${C16${C16M:V}}q', '--pika:threads=2'], {'threads': {'cmdopt': '2'}})
     add({'C16A': '${C16A}'}, ['${C16A}', '--pika:threads=2'], {'threads': {'cmdopt': '2'}})
     add({'PIKA_THREADS': '${C16T}', 'C16T': '3'}, [], {'threads': {'env': '3'}})
     add({'PIKA_THREAD_QUEUE_MAX_THREAD_COUNT': '${C16J}', 'C16I': '1100', 'C16J': '${C16I}'}, ['--pika:threads=2'])   # entry = ${C16I}
@@ -149,9 +153,10 @@ def dollar_env_cases(rng, mach, first_id, quick):
     # random nests
     for _ in range(40 if quick else 400):
         def val(allowed):
-            ps = [p_ for p_ in DOLLAR_PIECES if not re.match(r'\$\{C16[ABC]\}', p_) or p_[5] in allowed]
+            ps = [p_ for p_ in DOLLAR_PIECES if (not re.match(r'\$\{C16[ABC]\}', p_) or p_[5] in allowed) and 'C16N' not in p_ and 'C16M' not in p_ and '${C16C}' not in p_[1:]]
             return ''.join(rng.choice(ps) for _ in range(rng.randint(0, 4)))
-        env = {'C16C': val(''), 'C16B': val('C'), 'C16A': val('BC')}
+        env = {'C16C': val(''), 'C16B': val('C'), 'C16A': val('BC'), 'C16N': rng.choice(['C16A', 'C16C', 'C16U']),
+               'C16M': rng.choice(['A', 'B', 'Z']), 'C16K': rng.choice(['os_threads', 'scheduler', 'nosuch'])}
         args = [''.join(rng.choice(DOLLAR_PIECES) for _ in range(rng.randint(1, 4))) for _ in range(rng.randint(1, 2))]
         args = [a for a in args if not a.startswith('-')] or ['${C16A}']
         add(env, args + ['--pika:threads=2'], {'threads': {'cmdopt': '2'}},
